@@ -129,7 +129,7 @@ def model_checks(ctx, quick):
 
     def one(job):
         cfg, dev = job
-        return tlc.run("X86Len", cfg, expect_violation=dev, coverage=(cfg == "X86LenMC_thorough.cfg"), workers=6,
+        return tlc.run("X86Len", cfg, expect_violation=dev, coverage=(cfg == "X86LenMC.cfg" and not quick), workers=6,
                        tag="c07" + cfg[:-4], timeout=3000)
     with mp.pool.ThreadPool(len(jobs)) as tp:
         results = tp.map(one, jobs)
